@@ -276,6 +276,10 @@ impl Future for ScriptFuture {
         Some((t, v)) => {
           s.waker = None;
           activity();
+          // every time the future yields its result is counted (C13: once per subscription)
+          if let Some(sh) = STREAM_LOG.with(|l| l.borrow().clone()) {
+            sh.bump(6);
+          }
           Poll::Ready(if t == 'E' { Err(v) } else { Ok(v) })
         }
         None => {
